@@ -383,7 +383,11 @@ class FuncTranslator:
             op = {ast.Lt: "<", ast.LtE: "≤", ast.Gt: ">", ast.GtE: "≥", ast.Eq: "=", ast.NotEq: "≠"}.get(type(e.ops[0]))
             if op is None:
                 raise Unsupported("comparison operator")
-            l, r, _ = self.unify_num(l, lt, r, rt)
+            l, r, ut = self.unify_num(l, lt, r, rt)
+            if ut == "scalar" and op in ("≤", "≥"):
+                # the scalar type comes with `<` only: on a total order `a <= b` is `not (b < a)`
+                a_, b_ = (r, l) if op == "≤" else (l, r)
+                return f"(!(decide ({a_} < {b_})))", "bool"
             return f"(decide ({l} {op} {r}))", "bool"
         if isinstance(e, ast.BoolOp):
             parts = [self.as_bool(*self.expr(v)) for v in e.values]
